@@ -364,6 +364,9 @@ class TestCmd:
                 op["date_and_pin"] = True
             if rng.random() < 0.1:
                 op["verbose"] = rng.choice(["-v", "-vv"])    # must not change any outcome
+            if rng.random() < 0.04:
+                op["malformed"] = rng.choice([["--date", "2021-13-45"], ["--date", "yesterday"], ["--tag", "gamma"],
+                                              ["--tag", "ALPHA"], ["--date", "2021-02-30"]])
             ops.append(op)
         return {"pattern": pat["pattern"], "epoch": epoch.isoformat(), "state": state, "ops": ops}
 
@@ -445,6 +448,22 @@ class TestCmd:
                     argv += ["--set-version", target]
             if op.get("verbose"):
                 argv.append(op["verbose"])
+            if op.get("malformed"):
+                # a malformed flag value is one of the "other cases": non-zero exit, nothing announced, nothing changed
+                bad_argv = [a for a in argv if a not in ("--tag",)] if False else list(argv)
+                for flag in ("--date", "--tag"):
+                    if flag in bad_argv and flag == op["malformed"][0]:
+                        i = bad_argv.index(flag)
+                        del bad_argv[i:i + 2]
+                bad_argv += op["malformed"]
+                bres = invoker.invoke(d, bad_argv, today)
+                ctx.invocations += 1
+                ctx.event("malformed", bad_argv[3:], bres.exit_code)
+                ctx.probe("malformed_flag_value")
+                if bres.exit_code == 0 or bres.out_value("New Version: ") is not None or bres.changed:
+                    ctx.violation("C01", "malformed_flag_accepted", {"pattern": pattern, "flag": op["malformed"][0]},
+                                  "`bumpver %s` exit %s, announced %r" % (" ".join(bad_argv), bres.exit_code,
+                                                                           bres.out_value("New Version: ")))
             exp = expectation(ctx, tree, state, text, flags, clock, bool(use_date and flags.get("pin_date")))
             nviol = len(ctx.violations)
             res = invoker.invoke(d, argv, today)
